@@ -98,7 +98,8 @@ func vNativeForge(km *VKeyMaterial, k *security.IKESAKey, recvRole int, hdrMode 
 }
 
 // HUnprotectArbitrary (C02 O2-O4): DecodeDecrypt on an arbitrary datagram.
-// Params: suite, receiver role, hdrMode, length, family (1 = first payload spans the datagram).
+// Params: suite, receiver role, hdrMode, length, family (1 = first payload spans the datagram; 2 = an
+// unsupported non-critical payload of Param(5) octets in front of an Encrypted payload spanning the rest).
 func HUnprotectArbitrary() {
 	suite, role, hdrMode, n, family := vr.Param(0), vr.Param(1), vr.Param(2), vr.Param(3), vr.Param(4)
 	km := VGenKeyMaterial(suite)
@@ -110,6 +111,9 @@ func HUnprotectArbitrary() {
 		}
 		vr.Assume(int(b[30])<<8|int(b[31]) == n-28)
 		vr.Assume(b[16] == uint8(message.TypeSK))
+	}
+	if family == 2 && vFrontSkipped(b, n, vr.Param(5)) < 0 {
+		return
 	}
 	if vr.Native() {
 		vNativeForge(km, k, role, hdrMode, b)
